@@ -811,8 +811,39 @@ def valid_case(case):
         return False
 
 
+_FINDING_INPUTS = None
+
+
+def finding_inputs():
+    """the canonical inputs of the recorded findings (they are outside the oracle's domain on purpose)"""
+    global _FINDING_INPUTS
+    if _FINDING_INPUTS is None:
+        import os
+        path = os.path.join(os.path.dirname(os.path.dirname(os.path.dirname(os.path.abspath(__file__)))), 'findings', 'C20.json')
+        try:
+            _FINDING_INPUTS = set(json.dumps(e['input'], sort_keys=True) for e in json.load(open(path)))
+        except Exception:  # noqa
+            _FINDING_INPUTS = set()
+    return _FINDING_INPUTS
+
+
+def in_domain(case):
+    """inside the hypotheses of the oracle (what the generators keep): shrinking must not wander into the
+    class of a recorded finding, whose inputs fail on the unchanged tree as well"""
+    k = case.get('kind')
+    if json.dumps(case, sort_keys=True) in finding_inputs():
+        return True
+    if k == 'chain':
+        return G.chain_in_domain(case['ops'])
+    if k == 'tree':
+        return all(G.chain_in_domain(ops) for ops in G.tree_chains(case))
+    if k == 'form':
+        return G.form_in_domain(case)
+    return True
+
+
 def oracle_case(case):
-    if not valid_case(case):
+    if not valid_case(case) or not in_domain(case):
         raise Malformed()
     k = case.get('kind')
     if k in ('chainx', 'formx'):
